@@ -290,7 +290,7 @@ Qed.
 
 Lemma tx_body_rrel t s0 s1 res : tx_body c s0 t = (s1, res) ->
   rrel (body_raws t s0) s0 s1 /\
-  (is_ok res = false -> is_ibtp t = false \/ d_ibtp_no_revert c = false -> log s0 = [] -> log s1 = []).
+  (is_ok res = false -> tx_invalid t = true \/ is_ibtp t = false \/ d_ibtp_no_revert c = false -> log s0 = [] -> log s1 = []).
 Proof.
   unfold tx_body, body_raws, is_ibtp. destruct (tx_invalid t).
   { intro H; inversion H; subst. split; [apply rrel_refl | auto]. }
@@ -307,7 +307,7 @@ Proof.
     intro H; inversion H; subst. destruct res; simpl.
     + split; [exact E | discriminate].
     + destruct (d_ibtp_no_revert c).
-      * split; [exact E | intros _ [F|F]; discriminate].
+      * split; [exact E | intros _ [F|[F|F]]; discriminate].
       * split; [apply rrel_revert; exact E | reflexivity].
   - intro H; inversion H; subst. split; [apply rrel_refl | auto].
 Qed.
@@ -360,7 +360,7 @@ Qed.
 (** what a FAILED transaction leaves behind (any program, any position, any state) *)
 Theorem failed_characterised e idx s t s' rc cnt :
   d_fee_after_body c = false ->
-  is_ibtp t = false \/ d_ibtp_no_revert c = false ->
+  tx_invalid t = true \/ is_ibtp t = false \/ d_ibtp_no_revert c = false ->
   apply_tx c e idx s t = (s', rc, cnt) -> r_ok rc = false ->
   (forall a, bal s' a = spec_bal e s t a) /\
   (forall a, nonce s' a = spec_nonce s t a) /\
@@ -385,7 +385,7 @@ Qed.
 
 Theorem failed_frame_generic e idx s t s' rc cnt :
   d_fee_after_body c = false ->
-  is_ibtp t = false \/ d_ibtp_no_revert c = false ->
+  tx_invalid t = true \/ is_ibtp t = false \/ d_ibtp_no_revert c = false ->
   d_raw_add c = false \/ tx_raws c s t = [] ->
   apply_tx c e idx s t = (s', rc, cnt) -> r_ok rc = false ->
   frame_ok e s s' t.
@@ -395,6 +395,22 @@ Proof.
   split; [|split; assumption].
   intro k. destruct (Hs k) as [H|[F [v [Hin _]]]]; [exact H|].
   destruct Hr as [Hr|Hr]; [congruence | rewrite Hr in Hin; destruct Hin].
+Qed.
+
+(** a transaction rejected before execution (bad signature, unverified proof) never runs its
+    body: FAILED, and only nonce and fee remain - whatever the other flags *)
+Theorem invalid_tx_frame e idx s t s' rc cnt :
+  d_fee_after_body c = false -> tx_invalid t = true ->
+  apply_tx c e idx s t = (s', rc, cnt) -> r_ok rc = false /\ frame_ok e s s' t.
+Proof.
+  intros Hf Hinv Ha.
+  assert (Hok : r_ok rc = false).
+  { revert Ha. unfold apply_tx, tx_body. rewrite Hinv. unfold fee_phase.
+    destruct (bal (touch (clear_frame s) (tx_from t)) (tx_from t) <? gas_of t * price e).
+    - destruct (negb (d_fee_after_body c) && _); intro H; inversion H; reflexivity.
+    - intro H; inversion H; reflexivity. }
+  split; [exact Hok|].
+  eapply failed_frame_generic; [exact Hf | left; exact Hinv | right; unfold tx_raws; rewrite Hinv; reflexivity | exact Ha | exact Hok].
 Qed.
 
 End NoStale.
@@ -450,7 +466,7 @@ Qed.
     [length p] of [p ++ t :: q] the theorem above applies to the state reached after [p] *)
 Theorem block_position_frame c e s pre p t :
   d_stale_changer c = false -> d_fee_after_body c = false ->
-  is_ibtp t = false \/ d_ibtp_no_revert c = false ->
+  tx_invalid t = true \/ is_ibtp t = false \/ d_ibtp_no_revert c = false ->
   let '(si, _, _) := apply_txs c e 0%N (new_block s pre) p in
   let '(si', rc, _) := apply_tx c e (N.of_nat (length p)) si t in
   d_raw_add c = false \/ tx_raws c si t = [] ->
